@@ -2,9 +2,9 @@
    Proved per micro-operation for the integer-carrier arithmetics: the transfer value is the prescribed
    truncated quotient (two truncations; Scottish: one), never above the old value, never rounded up;
    transfer() moves a ballot to the first continuing candidate of its ranking at unchanged weight and
-   credits exactly its value.  WHOLE RUNS (wigm, wigm-prf, wigm-prf-batch, scotland): every tally is the value of the ballots
-   standing with the candidate in every reachable state (C06_tally_is_the_value_of_its_ballots_whole_run).  cfer, mpls:
-   ballots-scope correspondence + oracle (P1, P3, P4): _partial. *)
+   credits exactly its value.  WHOLE RUNS (wigm, wigm-prf(-batch), scotland, cfer(-batch), mpls): every tally is the value of the ballots
+   standing with the candidate in every reachable state (C06_tally_is_the_value_of_its_ballots_whole_run).  Rational arithmetic and
+   Guarded with guard > 0: ballots-scope correspondence + oracle (P1, P3, P4): _partial. *)
 From Coq Require Import ZArith List Bool String.
 From Droop Require Import Model.KernelBase Model.Arith Model.State Model.Prims Proofs.Zlike Proofs.Gregory
   Model.Prelude Model.Election Proofs.Conserve Proofs.ConserveCount.
@@ -57,7 +57,7 @@ Theorem C06_exclusion_moves_ballots_at_unchanged_value_partial : forall A S (ZL 
 Proof. exact transfer_conserves. Qed.
 Print Assumptions C06_exclusion_moves_ballots_at_unchanged_value_partial.
 
-(* ---- whole runs (wigm, wigm-prf, wigm-prf-batch, scotland; Fixed, integer, Guarded with guard 0) ----
+(* ---- whole runs (wigm, wigm-prf(-batch), scotland, cfer(-batch), mpls; Fixed, integer, Guarded with guard 0) ----
    In every state a count reaches without crashing: candidate ids are distinct, every ballot has a non-negative weight and
    an integral non-negative multiplier, every candidate's tally IS the value of the ballots standing with it -- except
    candidates that are neither hopeful nor transfer-pending and hold no ballot any more (elected, surplus transferred) --
